@@ -14,6 +14,7 @@ import ast
 import math
 import random
 from typing import Dict, List, Optional
+from sa.absint import Rec as _RecT
 
 from sa import algebra as A
 from sa.absint import (AbsRaise, Interp, Node, Num, Opaque, Rec, Unsupported, _MISSING, explore)
@@ -285,13 +286,217 @@ def run(chk: Check) -> None:
         "children at level + 1; (R3) transform scales x and y once, places the left child at x - offset and the right child "
         "at x + offset with the same offset and forwards units and measurement; (R4) for every prior state of the "
         "measurement (including the inverted initial one) and every path, min/max X/Y become the min/max of the previous "
-        "value and the node's coordinate, and width/height/centre derive from them. NOT decided: the tidy-tree geometry "
-        "itself - separation of at least one unit, left-to-right order per level, contour threading, mirror symmetry - is "
-        "numeric behaviour of a loop over data that no static argument in reach bounds.")
-    chk.not_decided = ["separation >= 1 unit", "level order", "contour threading correctness", "mirror symmetry",
-                       "offset positivity (left strictly left)"]
+        "value and the node's coordinate, and width/height/centre derive from them; (R5) the geometry itself, up to a size "
+        "bound: layout() is interpreted from source on every binary tree shape with up to 6 (thorough 8) nodes and two "
+        "unit settings, twice per tree, and the assigned coordinates are checked for y = depth x unit, left child "
+        "strictly left / right child strictly right, parent centred over two children, neighbours of a level at least "
+        "one unit apart, bounds equal to the true bounding box, identical coordinates on the second call, and mirrored "
+        "coordinates for the mirrored shape. NOT decided: shapes beyond the size bound (the contour walk is a loop over "
+        "data; no induction over tree size is attempted).")
+    chk.not_decided = ["tree shapes with more nodes than the bound"]
     chk.assumptions = ["recursive calls on children behave like the call analysed (induction)"]
     run_scratch(chk, prog)
     run_measure_depth(chk, prog)
     run_transform(chk, prog)
+    run_geometry(chk, prog)
     chk.max_undecided = 0
+
+
+# --------------------------------------------------------------------------- geometry on all shapes up to a size bound
+def shapes(n: int):
+    """All binary tree shapes with exactly n nodes as nested tuples (left, right) / None."""
+    if n == 0:
+        return [None]
+    out = []
+    for k in range(n):
+        for l in shapes(k):
+            for r in shapes(n - 1 - k):
+                out.append((l, r))
+    return out
+
+
+def mirror(s):
+    if s is None:
+        return None
+    return (mirror(s[1]), mirror(s[0]))
+
+
+def shape_str(s) -> str:
+    if s is None:
+        return "."
+    if s == (None, None):
+        return "N"
+    return f"({shape_str(s[0])} N {shape_str(s[1])})"
+
+
+def _layout_worker(task):
+    repo, shape_list, units = task
+    from sa.model import Program
+    prog = Program(repo)
+    out = []
+    node_cls = prog.cls("BinaryTreeNode")
+    lay_cls = prog.cls("TreeLayout")
+    m_layout = prog.func("layout", "TreeLayout.layout")
+    for s in shape_list:
+        def body(it: Interp, s=s):
+            def build(sh):
+                if sh is None:
+                    return None
+                l, r = build(sh[0]), build(sh[1])
+                return it.instantiate(node_cls, [l, r], {})
+            root = build(s)
+            lay = it.instantiate(lay_cls, [], {})
+            runs = []
+            for rep in range(2):
+                meas = it.call_function(m_layout, [lay, root] + list(units), {})
+                coords = []
+
+                def walk(n, depth, pos):
+                    c = it.cells[n.cid]
+                    coords.append((pos, depth, c.cur.get("x"), c.cur.get("y")))
+                    l, r = c.cur.get("left"), c.cur.get("right")
+                    if isinstance(l, Node):
+                        walk(l, depth + 1, pos + "L")
+                    if isinstance(r, Node):
+                        walk(r, depth + 1, pos + "R")
+                walk(root, 0, "")
+                runs.append((coords, {k: meas.fields.get(k) for k in ("minX", "maxX", "minY", "maxY", "width", "height")}
+                             if isinstance(meas, Rec) else None))
+            return runs
+        res = explore(prog, body, {"max_updepth": 0, "max_steps": 400000, "max_inline": 200, "model_zero_division": False},
+                      max_paths=4)
+        if len(res) != 1 or res[0].outcome != "return":
+            out.append({"shape": shape_str(s), "error": f"{len(res)} paths / {res[0].outcome if res else '-'} "
+                        f"{(res[0].exc or res[0].note) if res else ''}"})
+            continue
+        runs = res[0].value
+        rec = {"shape": shape_str(s), "problems": []}
+        ux, uy = units
+        coords, meas = runs[0]
+        num = lambda v: isinstance(v, (int, float)) and not isinstance(v, bool)
+        if not all(num(c[2]) and num(c[3]) for c in coords):
+            rec["problems"].append("non-numeric coordinates")
+            out.append(rec)
+            continue
+        byp = {c[0]: c for c in coords}
+        for pos, depth, x, y in coords:
+            if abs(y - depth * uy) > 1e-9:
+                rec["problems"].append(f"y of node {pos or 'root'} is {y}, depth {depth} x unit {uy}")
+            l, r = byp.get(pos + "L"), byp.get(pos + "R")
+            if l and not l[2] < x - 1e-12:
+                rec["problems"].append(f"left child of {pos or 'root'} is not strictly left of it ({l[2]} vs {x})")
+            if r and not r[2] > x + 1e-12:
+                rec["problems"].append(f"right child of {pos or 'root'} is not strictly right of it ({r[2]} vs {x})")
+            if l and r and abs((l[2] + r[2]) / 2 - x) > 1e-9:
+                rec["problems"].append(f"{pos or 'root'} is not centred over its two children ({l[2]}, {x}, {r[2]})")
+        levels: Dict[int, list] = {}
+
+        def order_key(pos):
+            # in-order position: compare paths lexicographically with L < '' < R
+            return [(-1 if ch == "L" else 1) for ch in pos]
+        for pos, depth, x, y in coords:
+            levels.setdefault(depth, []).append((pos, x))
+        for depth, items in levels.items():
+            items.sort(key=lambda t: _inorder_rank(t[0]))
+            for (p1, x1), (p2, x2) in zip(items, items[1:]):
+                if x2 - x1 < 1 * ux - 1e-9:
+                    rec["problems"].append(f"level {depth}: nodes {p1 or 'root'} and {p2 or 'root'} are {x2 - x1} apart (< 1 unit)")
+        if meas:
+            xs = [c[2] for c in coords]
+            ys = [c[3] for c in coords]
+            for k, want in (("minX", min(xs)), ("maxX", max(xs)), ("minY", min(ys)), ("maxY", max(ys))):
+                if not num(meas.get(k)) or abs(meas[k] - want) > 1e-9:
+                    rec["problems"].append(f"bounds.{k} = {meas.get(k)}, true value {want}")
+        if runs[1][0] != runs[0][0]:
+            rec["problems"].append("a second layout() of the same nodes gives different coordinates")
+        rec["coords"] = {c[0] or "root": (c[2], c[3]) for c in coords}
+        out.append(rec)
+    return out
+
+
+def _inorder_rank(pos: str):
+    # rank of a node among the nodes of one level, left to right: L < R at the first difference
+    return [0 if ch == "L" else 1 for ch in pos]
+
+
+def run_geometry(chk: Check, prog: Program) -> None:
+    import multiprocessing as mp
+    import os
+    n_max = 6 if chk.tier == "quick" else 8
+    chk.rule("C18.R5", f"tidy-tree invariants on every binary tree shape with up to {n_max} nodes (layout interpreted on "
+             "concrete shapes)", minimum=150)
+    all_shapes = [s for n in range(1, n_max + 1) for s in shapes(n)]
+    tasks = []
+    for units in ((1, 1), (2.0, 3.0)):
+        chunk = max(10, len(all_shapes) // 32)
+        for i in range(0, len(all_shapes), chunk):
+            tasks.append((str(prog.repo), all_shapes[i:i + chunk], units))
+    nproc = min(int(os.environ.get("VERIF_JOBS", "16")), os.cpu_count() or 1)
+    with mp.get_context("fork").Pool(nproc) as pool:
+        res = pool.map(_layout_worker, tasks, chunksize=1)
+    where = "mathy_core/layout.py:TreeLayout.layout"
+    by_shape: Dict[str, dict] = {}
+    flat = [r for ch in res for r in ch]
+    # mirror symmetry: coordinates of the mirrored shape are the mirrored coordinates
+    coords = {}
+    for r, (units_i) in zip(flat, [t[2] for t in tasks for _ in t[1]]):
+        if "coords" in r:
+            coords[(r["shape"], units_i)] = r["coords"]
+    for r, units_i in zip(flat, [t[2] for t in tasks for _ in t[1]]):
+        label = f"shape {r['shape']} units {units_i}"
+        if "error" in r:
+            chk.undecided("C18.R5", "C18.R5:interp", label, r["error"], where)
+            continue
+        probs = list(r["problems"])
+        if probs:
+            kind = probs[0].split(":")[0].split(" of ")[0][:40]
+            n_nodes = r["shape"].count("N")
+            where_key = r["shape"] if n_nodes <= 6 else "shapes-with-7-or-more-nodes"
+            chk.fail("C18.R5", f"C18.R5:{_classify_geo(probs[0])}:{where_key}", label, "; ".join(probs[:3]),
+                     witness={"shape": r["shape"], "units": units_i, "coords": r.get("coords")}, where=where)
+        else:
+            chk.ok("C18.R5", "C18.R5", label, where=where)
+    # mirror symmetry: the mirrored shape gets the mirrored coordinates (x -> -x, L <-> R)
+    shape_of = {shape_str(sh): sh for sh in all_shapes}
+    flip = str.maketrans("LR", "RL")
+    failing = {(r["shape"], u) for r, u in zip(flat, [t[2] for t in tasks for _ in t[1]]) if r.get("problems") or "error" in r}
+    for (sname, u), cs in coords.items():
+        msname = shape_str(mirror(shape_of[sname]))
+        if (msname, u) not in coords or sname > msname:
+            continue
+        if (sname, u) in failing or (msname, u) in failing:
+            continue
+        other = coords[(msname, u)]
+        bad = None
+        for pos, (x, y) in cs.items():
+            mp_ = "root" if pos == "root" else pos.translate(flip)
+            ox, oy = other.get(mp_, (None, None))
+            if ox is None or abs(ox + x) > 1e-9 or abs(oy - y) > 1e-9:
+                bad = (pos, (x, y), (ox, oy))
+                break
+        label = f"shape {sname} vs its mirror image, units {u}"
+        if bad:
+            n_nodes = sname.count("N")
+            wk = sname if n_nodes <= 6 else "shapes-with-7-or-more-nodes"
+            chk.fail("C18.R5", f"C18.R5:mirror:{wk}", label,
+                     f"node {bad[0]} is at {bad[1]} but its mirror image is at {bad[2]} in the mirrored tree",
+                     witness={"shape": sname, "mirror": msname, "coords": cs, "mirror_coords": other}, where=where)
+        else:
+            chk.ok("C18.R5", "C18.R5:mirror", label, where=where)
+    chk.analysed["layout_shapes"] = len(all_shapes)
+
+
+def _classify_geo(p: str) -> str:
+    if "apart" in p:
+        return "separation"
+    if "strictly" in p:
+        return "child-side"
+    if "centred" in p:
+        return "centring"
+    if "bounds" in p:
+        return "bounds"
+    if "second layout" in p:
+        return "repeatability"
+    if p.startswith("y of"):
+        return "depth"
+    return "other"
